@@ -44,9 +44,10 @@ def isSpace (c : Char) : Bool := c.toNat = 32 || (9 ≤ c.toNat && c.toNat ≤ 1
 /-- `std::isprint` in the "C" locale -/
 def isPrint (c : Char) : Bool := 32 ≤ c.toNat && c.toNat ≤ 126
 
-def digitsVal (acc : Nat) : Str → Nat
-  | [] => acc
-  | c :: r => digitsVal (10 * acc + (c.toNat - 48)) r
+/-- value of a decimal digit character -/
+def digitOf (c : Char) : Nat := c.toNat - 48
+
+def digitsVal (acc : Nat) (s : Str) : Nat := s.foldl (fun a c => 10 * a + digitOf c) acc
 
 def takeDigits : Str → Str × Str
   | [] => ([], [])
@@ -59,14 +60,16 @@ def dropSpaces : Str → Str
 def two32 : Nat := 4294967296
 def two64 : Nat := 18446744073709551616
 
+/-- an optional sign in front of a number -/
+def splitSign : Str → Bool × Str
+  | '-' :: r => (true, r)
+  | '+' :: r => (false, r)
+  | s => (false, s)
+
 /-- `iss >> n` for `unsigned int n` (libstdc++ `num_get::_M_extract_int`, base 10): `none` = failbit.
     Returns the value and the unread rest of the stream. -/
 def readUInt (s : Str) : Option (Nat × Str) :=
-  let s := dropSpaces s
-  let (neg, s) := match s with
-    | '-' :: r => (true, r)
-    | '+' :: r => (false, r)
-    | _ => (false, s)
+  let (neg, s) := splitSign (dropSpaces s)
   let (ds, rest) := takeDigits s
   if ds.isEmpty then none
   else
